@@ -16,9 +16,14 @@ import warnings
 from fractions import Fraction
 
 _U = {}
-UNITS = {1: "m", 2: "la", 3: "lc", 4: "km", 5: "mile"}
-# exact scales in metres (mile = 1609.344 m by definition)
-SCALE = {1: Fraction(1), 2: Fraction(1024), 3: Fraction(1, 8), 4: Fraction(1000), 5: Fraction(1609344, 1000)}
+UNITS = {1: "m", 2: "la", 3: "lc", 4: "km", 5: "mile", 6: "cm", 7: "mm", 8: "Mm", 9: "ym", 10: "Ym", 11: "lnd",
+         12: "l_pl", 13: "Wh", 14: "J", 15: "dB", 16: "B"}
+# exact scales (lengths in metres; mile = 1609.344 m by definition; decimal prefixes are the ideal powers of ten).
+# 12..16 are table values: their definition is the number the registry holds (filled in by setup).
+SCALE = {1: Fraction(1), 2: Fraction(1024), 3: Fraction(1, 8), 4: Fraction(1000), 5: Fraction(1609344, 1000),
+         6: Fraction(1, 100), 7: Fraction(1, 1000), 8: Fraction(10**6), 9: Fraction(1, 10**24), 10: Fraction(10**24),
+         11: Fraction(1024)}
+TABLE_UNITS = (12, 13, 14, 15, 16)
 # float formats by component size: precision, emin, emax
 FMT = {2: (11, -14, 15), 4: (24, -126, 127), 8: (53, -1022, 1023), 16: (64, -16382, 16383)}
 INT_LIMIT = 2**31 - 1
@@ -33,6 +38,11 @@ def setup(common=None):
     reg = UnitRegistry()
     reg.add("la", 1024.0, dimensions.length)
     reg.add("lc", 0.125, dimensions.length)
+    # same scale as la, but held as a strongly typed NumPy scalar (as the bel family and the Planck units are)
+    reg.add("lnd", np.float64(1024.0), dimensions.length)
+    for i in TABLE_UNITS:
+        SCALE[i] = Fraction(float(unyt.Unit(UNITS[i], registry=reg).base_value))
+    assert type(reg.lut["l_pl"][0]) is np.float64 and type(reg.lut["dB"][0]) is np.float64, "table no longer holds NumPy scalars for l_pl/dB"
     _U.update(np=np, unyt=unyt, reg=reg, ua=unyt.unyt_array, uq=unyt.unyt_quantity, Unit=unyt.Unit)
     assert np.dtype("f16").itemsize == 16 and np.finfo("f16").nmant == 63, "long double is not x87 extended"
 
@@ -168,7 +178,7 @@ def value_of(d, vc):
     np = _U["np"]
     if kind(d) in "iu":
         ii = np.iinfo(d)
-        v = {"s3": 3, "n5": -5, "e11": 2049, "e24": 2**24 + 1, "g24": 2**24 + 3, "e53": 2**53 + 1, "g53": 2**53 + 3,
+        v = {"z0": 0, "s3": 3, "n5": -5, "e11": 2049, "e24": 2**24 + 1, "g24": 2**24 + 3, "e53": 2**53 + 1, "g53": 2**53 + 3,
              "max": int(ii.max), "min": int(ii.min), "nmax": -int(ii.max)}[vc]
         assert ii.min <= v <= ii.max
         return Fraction(v), Fraction(0)
@@ -293,23 +303,32 @@ def ulp(x, cs):
     return Fraction(2) ** (max(e, emin) - p + 1)
 
 
-def near1(ob, ex, cs):
-    """float-vs-rational matching on non-dyadic factors: 4 ulp of the type + 2^-50 relative."""
+def near1(ob, ex, cs, ulps=4, extra=0):
+    """float-vs-rational matching on non-dyadic factors: `ulps` ulp of the type + 2^-50 relative (+ extra)."""
     if ob == "nan" or not isinstance(ex, Fraction):
         return False
-    tol = 4 * ulp(ex, cs) + abs(ex) / 2**50
+    tol = Fraction(ulps) * ulp(ex, cs) + abs(ex) / 2**50 + extra
     if not isinstance(ob, Fraction):
         big = rnd(abs(ex) + tol, cs)
         return not isinstance(big, Fraction) and (ob == "inf") == (ex > 0)
     return abs(ob - ex) <= tol
 
 
-def near(obs, want_v, cs, is_complex):
+def near(obs, want_v, cs, is_complex, ulps=4):
     if cs not in FMT:
         return False
     if is_complex:
-        return near1(obs[0], want_v[0], cs) and near1(obs[1], want_v[1], cs)
-    return want_v[1] == 0 and obs[1] == 0 and near1(obs[0], want_v[0], cs)
+        return near1(obs[0], want_v[0], cs, ulps) and near1(obs[1], want_v[1], cs, ulps)
+    return want_v[1] == 0 and obs[1] == 0 and near1(obs[0], want_v[0], cs, ulps)
+
+
+def conv_ulps(d, cs):
+    """how close a converted value must be to the exact one on non-dyadic factors: integer data are scaled in
+    double precision and rounded once to the float of their width (half an ulp of it; 2 ulp when that float is
+    the double itself: factor and product are each rounded); float data are scaled in their own precision."""
+    if kind(d) in "iu":
+        return Fraction(1, 2) if cs < 8 else 2
+    return 4
 
 
 def same_near(a, b, cs):
@@ -377,7 +396,10 @@ def observe_route(route, d, vals, scalar, frm, to, k, real=False):
     cs_w = comp(d)
     f = SCALE[frm] / SCALE[to]
     assert real or f == Fraction(2) ** k
-    mt = near if real else match
+    if real:
+        mt = lambda ob, ex, cs, isc: near(ob, ex, cs, isc, conv_ulps(d, cs))  # noqa: E731
+    else:
+        mt = match
     els = []
     for ob, v in zip(obs, vals):
         ex = (v[0] * f, v[1] * f)
@@ -703,11 +725,60 @@ def observe_comb(c):
     return {"raise": False, "exc": "", "kind": kd, "size": sz, "py": py, "warnR": wr, "warnU": wu, "els": els}
 
 
+# ----------------------------------------------------------------- mixed-unit ufuncs on real units
+def observe_ureal(c):
+    np = _U["np"]
+    d0, d1, op = c["d0"], c["d1"], c["op"]
+    v0 = [value_of(d0, p[0]) for p in c["els"]]
+    v1 = [value_of(d1, p[1]) for p in c["els"]]
+    a = make_obj(d0, v0, False, UNITS[c["u0"]])
+    b = make_obj(d1, v1, False, UNITS[c["u1"]])
+    r, exc, wr, wu = run(lambda: getattr(np, op)(a, b))
+    if exc:
+        return {"raise": True, "exc": exc, "kind": "", "size": 0, "py": False, "warnR": wr, "warnU": wu, "els": []}
+    kd, sz, py = dtype_of(r)
+    obs = [exact_c(e) for e in elements(r)]
+    cs_r = sz // 2 if kd == "c" else sz
+    f = SCALE[c["u1"]] / SCALE[c["u0"]]
+    cs1 = comp(d1)
+    u1 = Fraction(1, 2) if (kind(d1) in "iu" and size(d1) < 8) else Fraction(2)
+    els = []
+    for ob, a0, b0 in zip(obs, v0, v1):
+        e = dict(NOEL)
+        x1 = b0[0] * f
+        t1 = u1 * ulp(x1, cs1) + abs(x1) / 2**50
+        # the statement's converted operand: x1 rounded to the float of operand 1's item size (may be inf)
+        x1r = rnd(x1, cs1)
+        legit = [x1] + ([x1r] if not isinstance(x1r, Fraction) else [])
+        if op in ("add", "subtract", "maximum", "minimum"):
+            ok = False
+            for x in legit:
+                ex = _binop(op, a0, (x, Fraction(0)))[0]
+                if isinstance(ex, Fraction):
+                    ok = ok or (kd == "f" and cs_r in FMT and ob[1] == 0 and near1(ob[0], ex, cs_r, Fraction(1, 2), t1))
+                else:
+                    ok = ok or (kd == "f" and ob[0] == ex)
+            e["mS"] = ok
+        elif kd == "b":
+            bv = bool(ob[0] != 0)
+            e["b"] = bv
+            ok = False
+            for x in legit:
+                ok = ok or bv == _cmpop(op, a0, (x, Fraction(0)))
+            if isinstance(a0[0], Fraction) and abs(a0[0] - x1) <= t1 + Fraction(1, 2) * ulp(a0[0], max(cs1, 4)):
+                ok = True  # too close to call
+            e["mS"] = ok
+        els.append(e)
+    return {"raise": False, "exc": "", "kind": kd, "size": sz, "py": py, "warnR": wr, "warnU": wu, "els": els}
+
+
 def observe(case):
     if case["fam"] == "conv":
         o = observe_conv(case)
     elif case["fam"] == "comb":
         o = observe_comb(case)
+    elif case["fam"] == "ureal":
+        o = observe_ureal(case)
     else:
         o = observe_ufunc(case)
     return {"c": case, "o": o}
